@@ -16,7 +16,7 @@
                   enc_body t v = Ok bits ->  ws_body t v buf off = Ok (buf', off + |bits|), |buf'| = |buf|,
                                              firstn (off + |bits|) buf' = firstn off buf ++ bits,
                                              buf' = buf from the next byte boundary at/after the new cursor on. *)
-From Verif Require Import Wire WireThm WireThmRt Walker Refine RefineDesBase RefineSerBits RefineSerBase.
+From Verif Require Import Wire WireThm WireThmRt Walker Refine RefineDesBase RefineSerBits PrimsOn RefineSerBase.
 From Coq Require Import Lia ZifyBool ZifyNat ZifyN.
 Local Open Scope nat_scope.
 Ltac Zify.zify_post_hook ::= Z.div_mod_to_equations.
@@ -36,9 +36,10 @@ Qed.
 
 Section RefineSer.
   Variable P : prims.
-  Hypothesis HP : prims_ok P.
   Variable L : nat.
   Hypothesis HL : L mod 8 = 0.
+  (* the only thing assumed of the primitives (PrimsOn.set_law) *)
+  Hypothesis Hset : set_law P L.
 
   Definition P_ser (t : ty) : Prop := wf_ty t = true -> forall v buf off, storage_ok t v = true -> length buf = L ->
     off mod align t = 0 -> off + bmax t <= L -> ser_sim buf off (enc_body t v) (ws_body P t v buf off).
@@ -64,7 +65,7 @@ Section RefineSer.
     replace (off + header_bits + length b - (off + header_bits)) with (length b) by lia.
     set (hdr := bits_of_N header_bits (N.of_nat (length b / 8))).
     assert (Hh : length hdr = header_bits) by apply bits_of_N_length.
-    unfold w_set. rewrite (set_ok P HP) by lia. cbn [bind].
+    unfold w_set. rewrite (Hset buf1 off hdr) by (rewrite ?Hh; unfold header_bits in *; lia). cbn [bind].
     eexists. split; [f_equal; f_equal; rewrite app_length, Hh; lia|]. split; [|split].
     - rewrite !app_length, firstn_length, skipn_length. lia.
     - rewrite app_length, Hh.
@@ -107,7 +108,7 @@ Section RefineSer.
   Proof.
     induction 1 as [|f fs Hf Hfs IH]; intros Hwf vs buf base off omax Hst Hl Hle Hfit.
     - destruct vs as [|v vs]; cbn [enc_fields ws_fields ser_sim]; [|reflexivity].
-      apply (w_pad8_wrote P HP). cbn [fields_sum] in Hfit. pose proof (rup8_mono off omax Hle). lia.
+      apply (w_pad8_wrote P L Hset); [exact Hl|]. cbn [fields_sum] in Hfit. pose proof (rup8_mono off omax Hle). lia.
     - cbn [forallb] in Hwf. apply andb_prop in Hwf. destruct Hwf as [Hwf1 Hwf2].
       destruct vs as [|v vs]; cbn [enc_fields ws_fields]; [reflexivity|].
       cbn [storage_fields] in Hst. apply andb_prop in Hst. destruct Hst as [Hst1 Hst2].
@@ -116,7 +117,7 @@ Section RefineSer.
       pose proof (rupn_mono off omax f Hle) as Hmono. fold p in Hmono.
       pose proof (fields_sum_ge fmax fs (omax + padn omax (align f) + fmax f)) as Hge.
       assert (Hfit0 : off + padn off (align f) <= length buf) by (fold p; lia).
-      destruct (w_pad_wrote P HP buf off f Hfit0) as (buf0 & E0 & Hl0 & Hf0 & Hs0).
+      destruct (w_pad_wrote P L Hset buf off f Hl Hfit0) as (buf0 & E0 & Hl0 & Hf0 & Hs0).
       fold p in E0, Hf0, Hs0. rewrite repeat_length in E0, Hf0, Hs0. rewrite E0. cbn [bind].
       assert (Hl0' : length buf0 = L) by lia.
       assert (Hfit1 : off + p + fmax f <= L) by lia.
@@ -147,7 +148,7 @@ Section RefineSer.
   Proof.
     induction t as [p|e n IHe|e c IHe|u fs ext H] using ty_nested_ind; unfold P_ser; intros Hwf v buf off Hst Hl Ha Hfit.
     - (* primitive *)
-      cbn [ws_body enc_body wf_ty storage_ok bmax] in *. apply w_prim_sim; [exact HP | assumption | assumption | lia | lia].
+      cbn [ws_body enc_body wf_ty storage_ok bmax] in *. apply (w_prim_sim P L Hset); [assumption | assumption | assumption | lia | lia].
     - (* fixed array *)
       cbn [ws_body enc_body]. cbn [wf_ty align bmax] in *. fold (fmax e) in Hfit.
       destruct v; try reflexivity.
@@ -164,7 +165,8 @@ Section RefineSer.
       assert (Hpl : length pfx = prefix_bits c) by apply bits_of_N_length.
       assert (Hmul : length l * fmax e <= c * fmax e) by (apply Nat.mul_le_mono_r; exact Ec).
       assert (Hfit0 : off + length pfx <= length buf) by lia.
-      destruct (w_set_wrote P HP buf off pfx Hfit0) as (buf0 & E0 & Hl0 & Hf0 & Hs0).
+      assert (Hp64 : length pfx <= 64) by (rewrite Hpl; unfold prefix_bits; destruct (len_width_cases c) as [-> | [-> | [-> | ->]]]; lia).
+      destruct (w_set_wrote P L Hset buf off pfx Hl Hp64 Hfit0) as (buf0 & E0 & Hl0 & Hf0 & Hs0).
       rewrite E0. cbn [bind].
       assert (Hl0' : length buf0 = L) by lia.
       assert (Ha0 : (off + length pfx) mod align e = 0).
@@ -192,7 +194,8 @@ Section RefineSer.
         assert (Htl : length tg = tw) by apply bits_of_N_length.
         assert (Htw : tw mod 8 = 0) by apply tag_bits_mod8.
         assert (Hfit0 : off + length tg <= length buf) by lia.
-        destruct (w_set_wrote P HP buf off tg Hfit0) as (buf0 & E0 & Hl0 & Hf0 & Hs0).
+        assert (Ht64 : length tg <= 64) by (rewrite Htl; unfold tw, tag_bits; destruct (len_width_cases (length fs - 1)) as [-> | [-> | [-> | ->]]]; lia).
+        destruct (w_set_wrote P L Hset buf off tg Hl Ht64 Hfit0) as (buf0 & E0 & Hl0 & Hf0 & Hs0).
         rewrite E0. cbn [bind].
         assert (Hl0' : length buf0 = L) by lia.
         assert (Ha0 : (off + length tg) mod 8 = 0) by lia.
@@ -207,7 +210,8 @@ Section RefineSer.
         assert (Hpad : pad8 (off + length tg + length b) = pad8 (tw + length b)) by (unfold pad8; lia).
         pose proof (rup8_mono (tw + length b) (tw + fields_max fmax fs)) as Hr.
         assert (Hfit2 : off + length tg + length b + pad8 (off + length tg + length b) <= length buf1) by lia.
-        pose proof (w_pad8_wrote P HP buf1 (off + length tg + length b) Hfit2) as S. rewrite Hpad in S.
+        assert (Hl1' : length buf1 = L) by lia.
+        pose proof (w_pad8_wrote P L Hset buf1 (off + length tg + length b) Hl1' Hfit2) as S. rewrite Hpad in S.
         eapply wrote_trans; [exact Hl0 | exact Hf0 | exact Hs0 |].
         eapply wrote_trans; [exact Hl1 | exact Hf1 | exact Hs1 | exact S].
       + (* structure *)
@@ -221,35 +225,47 @@ Section RefineSer.
   Qed.
 End RefineSer.
 
-(* ---- the serialization refinement for composite types ---- *)
-Theorem walk_ser_refines_composite : forall P u fs ext v buf cap, prims_ok P ->
+(* ---- the serialization refinement for composite types, from the restricted store law (PrimsOn.set_law): this is the form that
+   is instantiated with the shipped primitives (Codec/Instances*.v) ---- *)
+Theorem walk_ser_refines_on : forall P u fs ext v buf cap, set_law P (8 * cap) ->
   wf_ty (TComp u fs ext) = true -> length buf = 8 * cap -> storage_ok (TComp u fs ext) v = true ->
   walk_ser P (TComp u fs ext) v buf cap = ser_spec (TComp u fs ext) v cap.
 Proof.
   intros P u fs ext v buf cap HP Hwf Hl Hst. set (t := TComp u fs ext) in *. unfold walk_ser, ser_spec.
   destruct (Nat.ltb_spec (8 * cap) (bmax t)) as [Hlt|Hge]; [reflexivity|].
   assert (HL : (8 * cap) mod 8 = 0) by lia.
-  pose proof (ser_all P HP (8 * cap) HL t Hwf v buf 0 Hst Hl eq_refl Hge) as S. unfold ser_sim in S.
+  pose proof (ser_all P (8 * cap) HL HP t Hwf v buf 0 Hst Hl eq_refl Hge) as S. unfold ser_sim in S.
   destruct (enc_body t v) as [bits|e] eqn:E; [|rewrite S; reflexivity].
   destruct S as (buf' & -> & _ & Hf & _). cbn [bind plus firstn app] in *.
   destruct (enc_len_bounds _ _ _ Hwf E) as [_ Hmod]. specialize (Hmod eq_refl).
   replace (8 * (length bits / 8)) with (length bits) by lia. rewrite Hf. reflexivity.
 Qed.
 
+Theorem walk_ser_refines_composite : forall P u fs ext v buf cap, prims_ok P ->
+  wf_ty (TComp u fs ext) = true -> length buf = 8 * cap -> storage_ok (TComp u fs ext) v = true ->
+  walk_ser P (TComp u fs ext) v buf cap = ser_spec (TComp u fs ext) v cap.
+Proof. intros P u fs ext v buf cap HP. apply walk_ser_refines_on. apply prims_ok_set_law. exact HP. Qed.
+
 (* the whole effect on the buffer, for every initial content: the walker leaves `bits ++ untouched rest` *)
-Theorem ws_body_effect_composite : forall P u fs ext v buf cap bits, prims_ok P ->
+Theorem ws_body_effect_on : forall P u fs ext v buf cap bits, set_law P (8 * cap) ->
   wf_ty (TComp u fs ext) = true -> length buf = 8 * cap -> storage_ok (TComp u fs ext) v = true ->
   bmax (TComp u fs ext) <= 8 * cap -> enc_body (TComp u fs ext) v = Ok bits ->
   ws_body P (TComp u fs ext) v buf 0 = Ok (bits ++ skipn (length bits) buf, length bits).
 Proof.
   intros P u fs ext v buf cap bits HP Hwf Hl Hst Hge E. set (t := TComp u fs ext) in *.
   assert (HL : (8 * cap) mod 8 = 0) by lia.
-  pose proof (ser_all P HP (8 * cap) HL t Hwf v buf 0 Hst Hl eq_refl Hge) as S. unfold ser_sim in S. rewrite E in S.
+  pose proof (ser_all P (8 * cap) HL HP t Hwf v buf 0 Hst Hl eq_refl Hge) as S. unfold ser_sim in S. rewrite E in S.
   destruct S as (buf' & -> & _ & Hf & Hs). cbn [plus firstn app] in *.
   destruct (enc_len_bounds _ _ _ Hwf E) as [_ Hmod]. specialize (Hmod eq_refl).
   assert (Hr : r8 (length bits) = length bits) by (unfold r8, pad8; lia). rewrite Hr in Hs.
   f_equal. f_equal. rewrite <- (firstn_skipn (length bits) buf'). rewrite Hf, Hs. reflexivity.
 Qed.
+
+Theorem ws_body_effect_composite : forall P u fs ext v buf cap bits, prims_ok P ->
+  wf_ty (TComp u fs ext) = true -> length buf = 8 * cap -> storage_ok (TComp u fs ext) v = true ->
+  bmax (TComp u fs ext) <= 8 * cap -> enc_body (TComp u fs ext) v = Ok bits ->
+  ws_body P (TComp u fs ext) v buf 0 = Ok (bits ++ skipn (length bits) buf, length bits).
+Proof. intros P u fs ext v buf cap bits HP. apply ws_body_effect_on. apply prims_ok_set_law. exact HP. Qed.
 
 Theorem walk_ser_obs_refines : forall u fs ext v buf cap,
   wf_ty (TComp u fs ext) = true -> length buf = 8 * cap -> storage_ok (TComp u fs ext) v = true ->
